@@ -125,7 +125,7 @@ class AsyncFIXConnection:
             journaler: fix messages journaling engine
             host: endpoint host
             port: endpoint port
-            heartbeat_period: heartbeat interval in seconds
+            heartbeat_period: heartbeat interval in seconds (at least 1)
             logger: logger instance (by default logging.getLogger())
             start_tasks: True - starts socket/heartbeat asyncio tasks, False - no tasks
                         (this is useful in debugging / testing)
@@ -147,6 +147,10 @@ class AsyncFIXConnection:
         )
         self._connection_was_active = False
         self._msg_buffer = b""
+        if heartbeat_period < 1:
+            # the watchdog probes after heartbeat_period - 1 s of silence and gives the peer
+            # 2 * heartbeat_period s to answer: below 1 s it would drop every peer at once
+            raise ValueError("heartbeat_period must be at least 1 second")
         self._heartbeat_period = heartbeat_period
         self._message_last_time = 0.0
         self._max_seq_num_resend = 0
